@@ -230,7 +230,8 @@ Section DistPrim.
     match l with [] => 0%nat | x :: l' => argbest (fun a b => b <? a) l' 1 0 x end.
 
   (** _plane_to_convex_hull_points: (dist, cp_plane, cp_points, arm);
-      arm 0: opposite sides (segment between the extreme vertices), 1: closest vertex *)
+      arm 0: opposite sides (point of the segment between the extreme vertices that lies on the plane),
+      1: closest vertex *)
   Definition plane_to_points (pp pn : V3 F) (pts : list (V3 F)) : F * V3 F * V3 F * nat :=
     let ts := map (fun q => dot (vsub q pp) pn) pts in
     let imin := argmin ts in
@@ -238,8 +239,12 @@ Section DistPrim.
     let tmin := nth imin ts zero in
     let tmax := nth imax ts zero in
     if tmin * tmax <? zero then
-      let '(d, c1, c2) := line_segment_to_plane (nth imin pts vzero) (nth imax pts vzero) pp pn eps6 in
-      (d, c1, c2, 0%nat)
+      (* /repo e4c9460: interpolate along the segment between the two extreme points *)
+      let t := tmin / (tmin - tmax) in
+      let pmin := nth imin pts vzero in
+      let pmax := nth imax pts vzero in
+      let x := vadd pmin (vscale t (vsub pmax pmin)) in
+      (zero, x, x, 0%nat)
     else
       let ic := argmin (map abs ts) in
       let cp := nth ic pts vzero in
@@ -349,7 +354,7 @@ Section DistPrim.
     else
       let pd := norm_vector (perpendicular_to_vector n) in
       let cp := vadd c (vscale r pd) in
-      (sqrt (r * r + dist_to_plane * dist_to_plane), cp, 1%nat).
+      (norm (vsub p cp), cp, 1%nat).                    (* /repo 8d1302d *)
   Definition point_to_circle (p c : V3 F) (r : F) (n : V3 F) (eps : F) : F * V3 F :=
     let '(d, cp, _) := point_to_circle_full p c r n eps in (d, cp).
 
